@@ -502,6 +502,41 @@ def push_only(U, rep):
   for s_ in sites:
     if s_.num is not None and s_.cls == 'GUARDED' and s_.num[0] == 'neg' and pred.show(s_.num[1]).endswith('.dist'):
       lam_ok = True
+  if not lam_ok:
+    # not in that shape (e.g. multiplied by a reciprocal kept in a temporary): decide the SIGN of the value.  With the
+    # penetration gate open, lambda = N / D as polynomials; dist < 0, masses (power atoms) > 0, every other quantity
+    # (generalised inverse masses, widened groups of them) >= 0: lambda > 0 iff N and D have the same strict sign.
+    def poly_sign(p_):
+      pos = neg = strict = False
+      for mono, c_ in p_.t.items():
+        sg, st_ = (1 if c_ > 0 else -1), True
+        for nm, e_ in mono:
+          if nm == dist_atom:
+            if e_ % 2:
+              sg = -sg
+          elif isinstance(nm, avn.Atom) and nm.kind == 'pow':
+            pass
+          elif not mono:
+            pass
+          else:
+            st_ = False            # a non-negative quantity that may vanish
+        if sg > 0:
+          pos = True
+        else:
+          neg = True
+        strict = strict or st_
+      if pos and neg:
+        return 0
+      return (1 if pos else -1) if strict else 0
+    try:
+      lam_open = Rat.lift(scenario.subst(lam0, scenario.atoms_false(others, atoms_one=gate)))
+      dsym = Rat.lift(cb.f['dist'][0])
+      (dmono, _), = dsym.n.t.items()
+      dist_atom = dmono[0][0]
+      sn, sd = poly_sign(lam_open.n), poly_sign(lam_open.d)
+      lam_ok = sn != 0 and sn == sd
+    except Exception:  # pylint: disable=broad-except
+      lam_ok = False
   rep.check(lam_ok, 'R6.4', 'positional: dlambda = -dist / (w1 + w2 + eps) > 0 when penetrating',
             'dlambda is no longer -dist over a positive guarded denominator (its sign decides push vs pull)',
             where=ft.where())
